@@ -234,15 +234,15 @@ pub fn run(ctx: &Ctx, rep: &mut Report) {
     hcobs_small::enumerate_enc(ctx, rep, Focus::Canonical, ctx.tier.pick(8, 10));
     hcobs_small::enumerate_dec(ctx, rep, ctx.tier.pick(6, 7));
     engine::enumerate(ctx, rep, "truncate-every-position", truncation_items(ctx.tier).into_iter(), check_decoder);
-    let cases = ctx.share(ctx.tier.pick(15_000, 300_000));
+    let cases = ctx.share(ctx.tier.pick(30_000, 300_000));
     engine::drive(ctx, rep, "encoder", codec::codec_case(false), cases, check_encoder);
-    let cases = ctx.share(ctx.tier.pick(1_500, 30_000));
+    let cases = ctx.share(ctx.tier.pick(3_000, 30_000));
     engine::drive(ctx, rep, "encoder-large", codec::codec_case(true), cases, check_encoder);
-    let cases = ctx.share(ctx.tier.pick(4_000, 60_000));
+    let cases = ctx.share(ctx.tier.pick(8_000, 60_000));
     engine::drive(ctx, rep, "encoder-power-of-two-aligned", codec::aligned_case(), cases, check_encoder);
-    let cases = ctx.share(ctx.tier.pick(40_000, 600_000));
+    let cases = ctx.share(ctx.tier.pick(80_000, 600_000));
     engine::drive(ctx, rep, "decoder", dec_case(false), cases, check_decoder);
-    let cases = ctx.share(ctx.tier.pick(2_000, 40_000));
+    let cases = ctx.share(ctx.tier.pick(4_000, 40_000));
     engine::drive(ctx, rep, "decoder-large", dec_case(true), cases, check_decoder);
 }
 
